@@ -157,7 +157,7 @@ JStep ==
   /\ Cases[tid].exc = ""
   /\ StepAction
   /\ LET c == Cases[tid]
-         cl == IF m.ops >= MaxModelOps THEN "machine-runs-on-where-the-tool-stopped"
+         cl == IF m.ops >= MaxModelOps THEN "machine-runs-on"
                ELSE IF ~m'.ok THEN "undefined:domain"
                ELSE IF c.vlevel = 0 THEN "ok"
                ELSE IF l > Len(c.lines) THEN "stopped-early"
